@@ -338,7 +338,7 @@ _STR_ALPHA = list("abcXYZ019 ()[]{},:='\"") + ["\n", "é", "日", "ß", "-", "."
 KEYS = ["app", "title", "url", "status", "missing"]
 VALS = ["Firefox", "vim", "afk", "not-afk", "x", "GitHub - Firefox", "(2) Facebook"]
 REGEXES = ["Fire", "vim|Firefox", "^G", ".", "x$", "[a-z]+", "not"]
-VARPOOL = ["a", "b", "events", "e2", "nop1", "concat_x", "RETURNED", "_u", "x9", "true", "not_afk", "tag_"]
+VARPOOL = ["a", "b", "events", "e2", "nop1", "concat_x", "RETURNED", "_u", "x9", "true", "not_afk", "tag_", "RETURN", "RETURN"]  # RETURN may be bound early and rebound later
 
 
 def str_node(text_strategy):
@@ -356,7 +356,7 @@ def lit_str(choices=None):
 
 
 def lit_int():
-    return st.one_of(st.sampled_from(["0", "1", "2", "3", "10", "007", "00"]), st.integers(0, 10**12).map(str)).map(lambda s: {"t": "int", "v": s})
+    return st.one_of(st.sampled_from(["0", "1", "2", "3", "10", "007", "00", "010", "0123", "09", "0080"]), st.integers(0, 10**12).map(str)).map(lambda s: {"t": "int", "v": s})
 
 
 def lit_any(depth=3):
